@@ -41,8 +41,20 @@ def plan(tier, seed):
 	for off in offsets(tier, seed):
 		for part in range(16):
 			tasks.append(('t_universe', dict(n=n, offset=off, part=part, nparts=16)))
+	# universes SPREAD over a type's whole range (differences between elements that do not fit the signed type of the same width)
+	for name in SPREAD:
+		for part in range(16):
+			tasks.append(('t_universe', dict(n=n, offset=name, part=part, nparts=16)))
 	tasks.append(('t_nearly_identical', dict(tier=tier)))
 	return tasks
+
+
+SPREAD = {
+	'spread-u8': [0, 1, 2 ** 63 - 1, 2 ** 63, 2 ** 64 - 2, 2 ** 64 - 1, 2 ** 62],
+	'spread-i8': [0, 1, 2 ** 62, 2 ** 62 + 1, 2 ** 63 - 2, 2 ** 63 - 1, 2 ** 61],
+	'spread-u4': [0, 1, 2 ** 31 - 1, 2 ** 31, 2 ** 32 - 2, 2 ** 32 - 1, 2 ** 30],
+	'spread-u2': [0, 1, 2 ** 15 - 1, 2 ** 15, 2 ** 16 - 2, 2 ** 16 - 1, 2 ** 14],
+}
 
 
 def dtypes_for(maxval):
@@ -58,7 +70,7 @@ def t_universe(n, offset, part, nparts):
 	import numpy as np
 	from gambit.metric import jaccarddist
 	sh = Shard()
-	U = [offset + i for i in range(n)]
+	U = sorted(SPREAD[offset][:n]) if isinstance(offset, str) else [offset + i for i in range(n)]
 	dts = dtypes_for(U[-1])
 	base_dt = dts[0]
 	subsets = [[x for i, x in enumerate(U) if m >> i & 1] for m in range(2 ** n)]
